@@ -33,6 +33,10 @@ type layoutOpts struct {
 	classes                bool
 	maxBlocks              int
 	maxColls               int
+	// multiMount profile: 4-7 services with 1-3 mounts each on devices WITHOUT device ids, a third of the
+	// mounts read-only, old replicas only, high desired replication, no storage classes: the layouts in
+	// which balanceBlock's two passes over the slots (distinct servers first, then the rest) matter
+	multiMount bool
 }
 
 // genLayout draws services, mounts, devices, blocks, replicas and collections.
@@ -48,6 +52,10 @@ func genLayout(c *simCluster, o layoutOpts) {
 		w.Probe("layout-big")
 	}
 	nSrv := 1 + w.Choose("services", maxSrv)
+	if o.multiMount {
+		nSrv, maxMnt = 4+w.Choose("services", 4), 3
+		w.Probe("layout-multi-mount")
+	}
 	if w.Chance("keep-services-paged", 200) {
 		c.ksCap = 1 + w.Choose("keep-services-page", nSrv)
 	}
@@ -61,6 +69,9 @@ func genLayout(c *simCluster, o layoutOpts) {
 		for j := 0; j < nm; j++ {
 			var dev *simDevice
 			kind := w.Choose(fmt.Sprintf("srv%d mnt%d device", i, j), 4) // 0 own id, 1 blank, 2/3 share an existing device
+			if o.multiMount {
+				kind = 1
+			}
 			if kind >= 2 {
 				var cand []*simDevice
 				for _, d := range c.devs {
@@ -92,7 +103,12 @@ func genLayout(c *simCluster, o layoutOpts) {
 				}
 				c.devs = append(c.devs, dev)
 			}
-			m := &simMount{dev: dev, srv: s, readOnly: w.Chance(fmt.Sprintf("srv%d mnt%d read-only", i, j), 200)}
+			roPM := 200
+			if o.multiMount {
+				roPM = 350
+				dev.repl = 1
+			}
+			m := &simMount{dev: dev, srv: s, readOnly: w.Chance(fmt.Sprintf("srv%d mnt%d read-only", i, j), roPM)}
 			if len(dev.views) > 0 && !w.Chance("shared mount gets own uuid", 400) {
 				m.uuid = dev.views[0].uuid // one volume entry in the cluster config, mounted by several hosts
 			} else {
@@ -117,7 +133,11 @@ func genLayout(c *simCluster, o layoutOpts) {
 				continue
 			}
 			var mt int64
-			switch w.Choose(fmt.Sprintf("block%d on %s mtime", i, d.key), 6) {
+			mk := w.Choose(fmt.Sprintf("block%d on %s mtime", i, d.key), 6)
+			if o.multiMount {
+				mk = 0
+			}
+			switch mk {
 			case 0: // old
 				mt = now - ttlNs - int64(1+rnd.Intn(100000))*int64(time.Second) - int64(rnd.Intn(1e9))
 			case 1: // new
@@ -154,6 +174,9 @@ func genLayout(c *simCluster, o layoutOpts) {
 		col.pdh = pdhOf(col.manifest)
 		if r := w.Choose(fmt.Sprintf("coll%d replication", i), 6); r > 0 {
 			v := []int{2, 1, 3, 0, 4}[r-1]
+			if o.multiMount {
+				v = []int{3, 4, 3, 2, 5}[r-1]
+			}
 			col.replDes = &v
 		}
 		if o.classes {
@@ -423,7 +446,11 @@ func (c *simCluster) executeTrash(s *simSrv, e trashEnt, now time.Time) bool {
 func scenC05(w *vsim.World, spec *vsim.Spec) {
 	c := newSimCluster(w)
 	c.api.ignoreSelect = w.Chance("api returns unselected attributes", 500)
-	genLayout(c, layoutOpts{maxSrvSmall: 4, maxSrvBig: 16, bigChance: 150, classes: w.Chance("storage classes in use", 500), maxBlocks: 12, maxColls: 6})
+	if w.Choose("layout-profile", 4) == 3 {
+		genLayout(c, layoutOpts{multiMount: true, maxSrvSmall: 4, maxSrvBig: 16, bigChance: 0, classes: false, maxBlocks: 6, maxColls: 3})
+	} else {
+		genLayout(c, layoutOpts{maxSrvSmall: 4, maxSrvBig: 16, bigChance: 150, classes: w.Chance("storage classes in use", 500), maxBlocks: 12, maxColls: 6})
+	}
 	c.logLayout()
 	// replication before the sweep, per block and class, over distinct devices
 	classes := c.allClasses()
